@@ -96,14 +96,16 @@ def _gen_payload(r, kind, k):
             head = f"POST /p{k}/socks HTTP/1.1\r\nHost: origin.test\r\nContent-Length: {len(body)}\r\nX-Marker: m{k}\r\n\r\n"
         else:
             head = f"GET /p{k}/socks?x=1 HTTP/1.1\r\nHost: origin.test\r\nX-Marker: m{k}\r\n\r\n"
-        return head.encode() + body
+        return head.encode() + body, 0
     n = r.choice([0, 0, 1, 2, 5, 17, 100, 300, 1500, 70000 if r.random() < 0.15 else 40])
     data = bytearray(r.randrange(256) for _ in range(min(n, 400)))
-    if n > 400:
-        data += bytes((i * 7 + i // 251) & 0xFF for i in range(n - 400))
     if data and data[0] == 0x16:
         data[0] = 0x17  # a TLS record would be picked up by TLS detection before tcp_hosts is consulted
-    return bytes(data)
+    return bytes(data), max(0, n - 400)  # (literal octets, number of formula-generated octets that follow)
+
+
+def _pad(n: int) -> bytes:
+    return bytes((i * 7 + i // 251) & 0xFF for i in range(n))
 
 
 def generate(rng, tier):
@@ -156,7 +158,7 @@ def generate(rng, tier):
         if r.random() < 0.05:
             # inconsistent length octets
             mb = bytearray(m)
-            mb[1] = r.choice([0, len(u) + 1, max(len(u) - 1, 0), 255])
+            mb[1] = min(255, r.choice([0, len(u) + 1, max(len(u) - 1, 0), 255]))
             m = bytes(mb)
         chunks.append(S(m))
     # --- request ---------------------------------------------------------------------------
@@ -172,10 +174,11 @@ def generate(rng, tier):
         req = bytes(rb)
     chunks.append(S(req))
     # --- payload -----------------------------------------------------------------------------
-    pay = _gen_payload(r, kind, r.randrange(1000))
+    pay, pad = _gen_payload(r, kind, r.randrange(1000))
     if pay:
         chunks.append(S(pay))
-    data = b"".join(B(c) for c in chunks)
+    data = b"".join(B(c) for c in chunks) + _pad(pad)
+    pay = pay + _pad(pad)
     truncate = None
     if r.random() < 0.18:
         hs = len(data) - len(pay)
@@ -217,13 +220,14 @@ def generate(rng, tier):
     if auth:
         options["proxyauth"] = f"{USER}:{PASSWORD}"
     if kind == "tcp":
-        options["tcp_hosts"] = [".*"] if r.random() < 0.8 else [r".", "nomatch"]
+        # must match every destination (also an empty host name), or port 53/5353 would select the DNS layer
+        options["tcp_hosts"] = [".*"] if r.random() < 0.8 else ["nomatch", r"^.*$"]
     else:
         # which layer follows SOCKS must not depend on how much payload the first read holds (that heuristic is
         # C19's subject): with rawtcp off everything that is not TLS is HTTP
         options["rawtcp"] = False
     sc = {"family": f"socks5-{kind}", "eager": r.random() < 0.5, "options": options, "kind": kind,
-          "chunks": chunks, "truncate": truncate, "segmentations": segs, "connect": connect,
+          "chunks": chunks, "pad": pad, "truncate": truncate, "segmentations": segs, "connect": connect,
           "banner": S(r.choice([b"", b"", b"220 origin ready\r\n", b"\x00\x01banner"])) if kind == "tcp" else ""}
     return sc
 
@@ -244,6 +248,12 @@ def shrink_candidates(sc):
         c = copy.deepcopy(sc)
         c["segmentations"] = [segs[0], segs[-1]]
         yield c
+    if sc.get("pad"):
+        for keep in (0, sc["pad"] // 2, 65536 - 400):
+            if keep < sc["pad"]:
+                c = copy.deepcopy(sc)
+                c["pad"] = keep
+                yield c
     # shorter payload (last chunk), keeping cut positions valid
     ch = sc.get("chunks", [])
     if ch and len(ch[-1]) > 8:
@@ -259,6 +269,7 @@ def shrink_candidates(sc):
         c = copy.deepcopy(sc)
         c["chunks"] = [S(client_bytes(sc))]
         c["truncate"] = None
+        c["pad"] = 0
         yield c
     for k in ("delay",):
         if sc.get("connect", {}).get(k):
@@ -271,7 +282,7 @@ def shrink_candidates(sc):
 # executor
 # ---------------------------------------------------------------------------
 def client_bytes(sc) -> bytes:
-    data = b"".join(B(c) for c in sc["chunks"])
+    data = b"".join(B(c) for c in sc["chunks"]) + _pad(sc.get("pad", 0))
     if sc.get("truncate") is not None:
         data = data[:sc["truncate"]]
     return data
